@@ -175,6 +175,19 @@ def cmp_pred(p, d, mc, a, b):
     return (ok, f"comparison differs between reference and optimized at {a} {b}")
 
 
+def cmp_int_pred(p, a, k):
+    """FQ == int / FQ != int with ints outside [0, p): the optimized class answers like the reference class"""
+    import pyexec
+    R, Opt = pyexec.fcls(f"q:{p}:ref"), pyexec.fcls(f"q:{p}:opt")
+    bad = []
+    for kk in (k, a, a + p, a - p, -a, 0, p, -p, 2 * p + a):
+        r1, o1 = (R(a) == kk), (Opt(a) == kk)
+        r2, o2 = (R(a) != kk), (Opt(a) != kk)
+        if r1 != o1 or r2 != o2:
+            bad.append(f"FQ({a}) vs int {kk}: reference ==:{r1} !=:{r2}, optimized ==:{o1} !=:{o2}")
+    return (not bad, f"comparison with int operands over GF({p}): {bad[:3]}")
+
+
 def predicates(rng, tier, only=None):
     ps = []
     n = 4 if tier == "quick" else 40
@@ -183,6 +196,9 @@ def predicates(rng, tier, only=None):
             depth = rng.randrange(1, 9 if d < 12 else 5)
             leaves = [[rng.choice([0, 1, p - 1, rng.randrange(p)]) for _ in range(d)] for _ in range(3)]
             ps.append(Pred("expr-tree", tree_pred, (p, d, mc, gen_tree(rng, depth, 3, p), leaves)))
+        if d == 1:
+            for _ in range(3):
+                ps.append(Pred("comparison", cmp_int_pred, (p, rng.choice([0, 1, p - 1, rng.randrange(p)]), rng.choice([-1, p, p + 1, -p, rng.randrange(p * p)]))))
         for _ in range(n):
             a = [rng.choice([0, 0, 1, p - 1, rng.randrange(p)]) for _ in range(d)]
             ps.append(Pred("sgn0-rfc", sgn0_pred, (p, d, mc, a)))
